@@ -312,10 +312,9 @@ def install(world):
         if isinstance(x, SBool):
             return SInt(TInt.unwrap(x))
         if isinstance(x, SReal):
-            # truncation toward zero (of the exact value)
+            # truncation toward zero of the (rounded) float value: the
+            # rounding fl stays in place - int(fl(x)) is NOT trunc(x)
             t = x.t
-            if z3.is_app(t) and t.decl().name() == 'fl':
-                t = t.arg(0)
             return SInt(z3.If(t >= 0, z3.ToInt(t), -z3.ToInt(-t)))
         raise Unsupported('int() of %r' % (x,))
     reg('int', b_int)
